@@ -26,6 +26,8 @@ type Env struct {
 	bound  map[string]TV
 	atLoop bool
 	caller map[string]TV // at call sites: the caller's parameters, as caller.<name>
+	prevLoop *loopInfo   // in step clauses: the loop whose head state prev(e) refers to
+	callee map[string]bool // at call sites: names of the callee's parameters (they shadow the caller's locals)
 }
 
 func (e *Env) withState(cur, old *State) *Env {
@@ -99,8 +101,8 @@ func (f *fx) lookupLocal(name string) (TV, bool) {
 					}
 				}
 			case *ssa.DebugRef:
-				if b == cur {
-					continue // references in the current block may lie after the current point
+				if b == cur && i >= f.curIdx {
+					continue // references after the current point
 				}
 				if id, ok := x.Expr.(*ast.Ident); ok && id.Name == name && !x.IsAddr {
 					if _, isC := x.X.(*ssa.Const); isC {
@@ -109,6 +111,16 @@ func (f *fx) lookupLocal(name string) (TV, bool) {
 						consider(TV{V: v, GoT: x.X.Type()}, b, i)
 					}
 				}
+			}
+		}
+	}
+	if !found {
+		// captured variables of a closure
+		for i, fv := range f.fn.FreeVars {
+			if fv.Name() == name && i < len(f.freeVars) {
+				v := f.freeVars[i]
+				l := f.ptrLoc(v, fv.Type())
+				return TV{V: termVal(f.load(f.cur, l)), GoT: derefType(fv.Type())}, true
 			}
 		}
 	}
@@ -258,13 +270,19 @@ func (f *fx) tryIdent(name string, env *Env) (TV, bool) {
 			return v, true
 		}
 	}
-	if v, ok := env.vars[name]; ok {
-		return v, true
+	if env.callee != nil && env.callee[name] {
+		if v, ok := env.vars[name]; ok {
+			return v, true
+		}
 	}
 	if env.atLoop {
+		// inside the body the current value of a (possibly reassigned) parameter or local wins
 		if v, ok := env.f.lookupLocal(name); ok {
 			return v, true
 		}
+	}
+	if v, ok := env.vars[name]; ok {
+		return v, true
 	}
 	return TV{}, false
 }
@@ -689,6 +707,38 @@ func (f *fx) specCall(e *ast.CallExpr, env *Env) TV {
 			unsupp("iface: unknown type %s", tn)
 		}
 		return tvTerm(f.makeIface(a.V, gt), nil)
+	case "prev":
+		if env.prevLoop == nil {
+			unsupp("prev() outside of a loop step clause")
+		}
+		li := env.prevLoop
+		saved := map[*ssa.Phi]Val{}
+		for phi, v := range li.headPhis {
+			saved[phi] = f.vals[phi]
+			f.vals[phi] = v
+		}
+		penv := *env
+		penv.cur = li.headState
+		penv.prevLoop = nil
+		saveBlock, saveIdx := f.curBlock, f.curIdx
+		f.curBlock, f.curIdx = li.head, 1<<30
+		r := f.evalSpec(e.Args[0], &penv)
+		f.curBlock, f.curIdx = saveBlock, saveIdx
+		for phi, v := range saved {
+			f.vals[phi] = v
+		}
+		return r
+	case "visits":
+		// visits("callee key", n): how often the n-th static call site of the callee (by source position) was executed
+		tl, ok := e.Args[0].(*ast.BasicLit)
+		il, ok2 := e.Args[1].(*ast.BasicLit)
+		if !ok || !ok2 {
+			unsupp("visits(\"key\", n)")
+		}
+		k, _ := strconv.Unquote(tl.Value)
+		key := fmt.Sprintf("E:visits:%s#%s", k, il.Value)
+		f.regKey(key, "Int")
+		return tvTerm(f.get(env.cur, key), tInt)
 	case "ncalls":
 		// ncalls("callee key"): how many times this function body has called the callee so far
 		tl, ok := e.Args[0].(*ast.BasicLit)
@@ -699,6 +749,32 @@ func (f *fx) specCall(e *ast.CallExpr, env *Env) TV {
 		key := "E:ncalls:" + k
 		f.regKey(key, "Int")
 		return tvTerm(f.get(env.cur, key), tInt)
+	case "lastret":
+		// lastret("callee key", i): i-th result of the most recent call of the callee in this function body
+		tl, ok := e.Args[0].(*ast.BasicLit)
+		il, ok2 := e.Args[1].(*ast.BasicLit)
+		if !ok || !ok2 {
+			unsupp("lastret(\"key\", i)")
+		}
+		k, _ := strconv.Unquote(tl.Value)
+		key := fmt.Sprintf("E:ret:%s:%s", k, il.Value)
+		if _, ok := f.e.keySorts[key]; !ok {
+			unsupp("lastret: no call of %s was seen before this point", k)
+		}
+		var gt types.Type
+		if fn := f.e.fnByKey[k]; fn != nil {
+			n, _ := strconv.Atoi(il.Value)
+			if n < fn.Signature.Results().Len() {
+				gt = fn.Signature.Results().At(n).Type()
+			}
+		}
+		return tvTerm(f.get(env.cur, key), gt)
+	case "panicking":
+		f.regKey("E:panicking", "Bool")
+		if t, ok := env.cur.m["E:panicking"]; ok {
+			return tvTerm(t, tBoolT)
+		}
+		return tvTerm(tFalse, tBoolT)
 	case "gaddr":
 		// gaddr(name): address of a package-level variable
 		id, ok := e.Args[0].(*ast.Ident)
@@ -713,6 +789,11 @@ func (f *fx) specCall(e *ast.CallExpr, env *Env) TV {
 		}
 		tn, _ := strconv.Unquote(tl.Value)
 		return tvTerm(f.e.sorts.zero(f.e.specSort(tn)), f.e.lookupType(tn))
+	case "isptr":
+		// isptr(x): the dynamic type of interface value x is a pointer type
+		t := argT(0)
+		f.sc.declareOnce("is_ptr_tag", "(declare-fun is_ptr_tag (Int) Bool)")
+		return tvTerm(T("Bool", "(is_ptr_tag (itag %s))", t.S), tBoolT)
 	case "isnil":
 		t := argT(0)
 		return tvTerm(eq(t, f.e.sorts.zero(t.Sort)), tBoolT)
